@@ -64,6 +64,7 @@ type oracles struct {
 	everRemoved map[uint64]uint64 // replica id -> ccid at which it was seen removed
 	maxCommitted uint64
 	dupFired int
+	panics   []string
 	abandoned []*pendingReq
 	snapshotsDone int
 }
